@@ -258,54 +258,66 @@ Fixpoint ws (fuel : nat) (s : list N) (wll : bool) (fl : N) : list N * bool * N 
       else (s, wll, fl)
   end.
 
+(** the case '/' '/' of the switch, from the byte after the second slash: kind and text after the comment (the new-line is not part of it) *)
+Definition line_comment_at (s3 : list N) : N * list N :=
+  let k := if in2 (ahead s3) 47 33 then K_SingleLineDocumentationCommentTrivia else K_SingleLineCommentTrivia in
+  let s4 := if in2 (ahead s3) 47 33 then adv s3 else s3 in
+  (k, line_comment (length s4) s4).
+
+(** the case '/' '*' of the switch, from the byte after the asterisk: kind and text after the closing pair (or the end of the text) *)
+Definition block_comment_at (s3 : list N) : N * list N :=
+  let e := ahead s3 in
+  let s4 := adv s3 in
+  let closed := in2 e 42 33 && (e =? 42) && (ahead s4 =? 47) in
+  let s5 := if ahead s4 =? 60 then adv s4 else s4 in
+  let k := if in2 e 42 33 then
+             (if closed then K_MultiLineCommentTrivia
+              else if (ahead s5 =? 0) || isspace (ahead s5) then K_MultiLineDocumentationCommentTrivia
+              else K_MultiLineCommentTrivia)
+           else if e =? 46 then K_Keyword_ExtPSY_omission
+           else K_MultiLineCommentTrivia in
+  let body := if in2 e 42 33 then s5 else if e =? 46 then sw isdot s3 else s3 in
+  let s6 := if closed then s4 else block_loop (length body) body in
+  (k, if ahead s6 =? 0 then s6 else adv s6).
+
 Section Core.
 Variable keep : bool.          (* ParseOptions::CommentMode != Discard *)
 
 (** result: kind, flags, text at the token's first byte, text after its last byte, withinLogicalLine_ *)
-Fixpoint core (fuel : nat) (s : list N) (wll : bool) (fl : N) : N * N * list N * list N * bool :=
+Definition R : Type := N * N * list N * list N * bool.
+
+(** the switch of yylex_CORE on the byte [ahead s1] at which the white-space loop stopped; [rec] is `goto LexEntry' *)
+Definition dispatch (rec : list N -> bool -> N -> R) (s1 : list N) (wll1 : bool) (fl1 : N) : R :=
+  let c := ahead s1 in
+  if c =? 0 then (K_EndOfFile, fl1, s1, s1, wll1)
+  else
+    let s2 := adv s1 in
+    if c =? 92 then rec s2 true fl1
+    else if c =? 34 then (K_StringLiteralToken, fl1, s1, quoted 34 s2, false)
+    else if c =? 39 then (K_CharacterConstantToken, fl1, s1, quoted 39 s2, false)
+    else if c =? 47 then
+      let d := ahead s2 in
+      if d =? 47 then
+        let '(k, s5) := line_comment_at (adv s2) in
+        if keep then (k, fl1, s1, s5, false) else rec s5 false fl1
+      else if d =? 42 then
+        let '(k, s7) := block_comment_at (adv s2) in
+        if keep then (k, fl1, s1, s7, false) else rec s7 false fl1
+      else if d =? 61 then (K_SlashEqualsToken, fl1, s1, adv s2, false)
+      else (K_SlashToken, fl1, s1, s2, false)
+    else
+      match lex_punct punct_cases c s2 with
+      | Some (Some k, n, _) => (k, fl1, s1, skipn n s2, false)
+      | Some (None, n, _) => let '(k, s3) := at_period (skipn n s2) in (k, fl1, s1, s3, false)
+      | None => let '(k, s3) := word c s2 in (k, fl1, s1, s3, false)
+      end.
+
+Fixpoint core (fuel : nat) (s : list N) (wll : bool) (fl : N) : R :=
   match fuel with
   | O => (K_EndOfFile, fl, s, s, wll)
   | S f =>
       let '(s1, wll1, fl1) := ws (length s) s wll fl in
-      let c := ahead s1 in
-      if c =? 0 then (K_EndOfFile, fl1, s1, s1, wll1)
-      else
-        let s2 := adv s1 in
-        if c =? 92 then core f s2 true fl1
-        else if c =? 34 then (K_StringLiteralToken, fl1, s1, quoted 34 s2, false)
-        else if c =? 39 then (K_CharacterConstantToken, fl1, s1, quoted 39 s2, false)
-        else if c =? 47 then
-          let d := ahead s2 in
-          if d =? 47 then
-            let s3 := adv s2 in
-            let k := if in2 (ahead s3) 47 33 then K_SingleLineDocumentationCommentTrivia else K_SingleLineCommentTrivia in
-            let s4 := if in2 (ahead s3) 47 33 then adv s3 else s3 in
-            let s5 := line_comment (length s4) s4 in
-            if keep then (k, fl1, s1, s5, false) else core f s5 false fl1
-          else if d =? 42 then
-            let s3 := adv s2 in
-            let e := ahead s3 in
-            let s4 := adv s3 in
-            let closed := in2 e 42 33 && (e =? 42) && (ahead s4 =? 47) in
-            let s5 := if ahead s4 =? 60 then adv s4 else s4 in
-            let k := if in2 e 42 33 then
-                       (if closed then K_MultiLineCommentTrivia
-                        else if (ahead s5 =? 0) || isspace (ahead s5) then K_MultiLineDocumentationCommentTrivia
-                        else K_MultiLineCommentTrivia)
-                     else if e =? 46 then K_Keyword_ExtPSY_omission
-                     else K_MultiLineCommentTrivia in
-            let body := if in2 e 42 33 then s5 else if e =? 46 then sw isdot s3 else s3 in
-            let s6 := if closed then s4 else block_loop (length body) body in
-            let s7 := if ahead s6 =? 0 then s6 else adv s6 in
-            if keep then (k, fl1, s1, s7, false) else core f s7 false fl1
-          else if d =? 61 then (K_SlashEqualsToken, fl1, s1, adv s2, false)
-          else (K_SlashToken, fl1, s1, s2, false)
-        else
-          match lex_punct punct_cases c s2 with
-          | Some (Some k, n, _) => (k, fl1, s1, skipn n s2, false)
-          | Some (None, n, _) => let '(k, s3) := at_period (skipn n s2) in (k, fl1, s1, s3, false)
-          | None => let '(k, s3) := word c s2 in (k, fl1, s1, s3, false)
-          end
+      dispatch (core f) s1 wll1 fl1
   end.
 
 (* ------------------------------------------------------------------ Lexer::lex *)
